@@ -31,6 +31,7 @@ class Gen:
         self.logs = logs
         self.counter = 0
         self.protected = set()
+        self.hidden = set()     # outer names reused as a loop counter inside the current function: not read again there
         self.funcs = []      # (name, [param types], ret type) visible at module level (captured by reference)
 
     def fresh(self, p='v'):
@@ -47,7 +48,7 @@ class Gen:
         return ('str', r.choice(['a', 'bc', '', 'x y', 'é', 'q"t', 'n\\l']))
 
     def vars_of(self, env, ty):
-        return [x for scope in env for x, t in scope.items() if t == ty]
+        return [x for scope in env for x, t in scope.items() if t == ty and x not in self.hidden]
 
     def targets_of(self, env, ty):
         """variables that may be assigned: not loop counters (w*, j*) and not the recursion parameter"""
@@ -263,6 +264,7 @@ class Gen:
         params = [(self.fresh('p'), t) for t in ptys]
         ret = r.choice(['int', 'int', 'bool', 'str', None]) if not recursive else 'int'
         fenv = env + [dict(params)]
+        saved_hidden = set(self.hidden)
         in_fn = {'ret': ret, 'base': len(env), 'rec': None}
         body = []
         if recursive:
@@ -273,11 +275,22 @@ class Gen:
                 args = [('bin', '-', ('var', n), ('int', 1))] + [g.expr(e2, t, 1, None) for _, t in params[1:]]
                 return ('self', args)
             in_fn['rec'] = rec
+        if not recursive and r.random() < 0.25:
+            # a loop counter named like a variable of an ENCLOSING scope: a new local for the duration of the loop.
+            # It is the first statement of the body and the name is not used again in this function (a read of the
+            # outer variable BEFORE such a loop is a known defect of the capture analysis, see DESIGN 7)
+            outer = [x for sc in env for x, t in sc.items() if t == 'int' and x[0] not in 'wj']
+            if outer:
+                nm = r.choice(outer)
+                self.hidden.add(nm)
+                body.append(('from', ('int', 0), ('int', r.randint(1, 3)), False, None, nm, False,
+                             [('print', ('bin', '+', ('var', params[0][0]), ('int', 1)) if params and params[0][1] == 'int' else ('str', 'tick'))]))
         body += self.block(fenv, self.max_depth - 1 - nested_depth, 0, in_fn, n=r.randint(1, 4))
         if body and body[-1][0] == 'ret':
             pass
         elif ret is not None:
             body.append(('ret', self.expr(fenv + [{}], ret, 2, in_fn)))
+        self.hidden = saved_hidden
         return name, ptys, ret, ('fn', params, ret, body)
 
     @staticmethod
